@@ -102,7 +102,19 @@ func tableBytes(regs []refRegion) []byte {
 
 // genRegions draws a region table; valid ones mostly, with the documented edge shapes.
 func genRegions(r *rng, sectors uint32) ([]refRegion, bool) {
-	switch r.intn(12) {
+	switch r.intn(14) {
+	case 8, 9:
+		// borders at and above 2^31 (sector numbers are int32 inside the server): still ordinary valid tables
+		switch r.intn(4) {
+		case 0:
+			return []refRegion{{0, 2}, {0x80000005, 0x80000006}}, true // the gap covers the rest of the file
+		case 1:
+			return []refRegion{{0, 2}, {5, 0xffffffff}}, true
+		case 2:
+			return []refRegion{{0, 2}, {5, 7}, {0x7fffffff, 0x80000000}}, true
+		default:
+			return []refRegion{{0, 1}, {0xfffffffe, 0xffffffff}, {0xffffffff, 0xffffffff}}, false // empty last region
+		}
 	case 0:
 		return []refRegion{{0, sectors}}, false // a single region: invalid (count < 2)
 	case 1:
